@@ -402,3 +402,47 @@ Definition rmismatches (cases : list rcase) : list nat := false_indices 0 (map r
 Definition rcount_nontrivial (cases : list rcase) : nat :=
   count_true (map (fun c : rcase =>
      match fst c with [] => false | IPopTop :: _ => false | IStoreName KFast _ :: _ => false | _ => true end) cases).
+
+(* ------------------------------------------------------------------ locals fallback *)
+(* _contexts_active_by_trickery: locals_by_id[id(value)] = name for every local in f_locals order
+   (later names overwrite), then varname := locals_by_id.get(id(obj)) where varname is None. *)
+Fixpoint last_bound (locals : list (string * nat)) (obj : nat) : option string :=
+  match locals with
+  | [] => None
+  | (n, v) :: r =>
+      match last_bound r obj with
+      | Some m => Some m
+      | None => if Nat.eqb v obj then Some n else None
+      end
+  end.
+
+Definition final_varname (described : dres) (locals : list (string * nat)) (obj : nat) : option string :=
+  match described with
+  | DSome s => Some s
+  | _ => last_bound locals obj
+  end.
+
+(* kind "fb": a context of a suspended frame: (static description of the item, locals with object
+   identities, identity of the manager, Context.varname reported by stackscope.extract) *)
+Definition fcase := (dres * list (string * nat) * nat * option string)%type.
+(* compared at the level of the property (which local is named is not prescribed; None is allowed
+   when nothing could be reconstructed): a reconstructed target must be reported as such, any
+   other name must be a local bound to the manager *)
+Definition fcase_ok (c : fcase) : bool :=
+  let '(d, locals, obj, obs) := c in
+  match d with
+  | DSome s => option_eqb String.eqb obs (Some s)
+  | DNone =>
+      match obs with
+      | None => true
+      | Some n => existsb (fun p => String.eqb (fst p) n && Nat.eqb (snd p) obj) locals
+      end
+  | DFuel => false
+  end.
+(* the model's own choice (last bound local) is one of the accepted answers *)
+Definition fcase_exact (c : fcase) : bool :=
+  let '(d, locals, obj, obs) := c in option_eqb String.eqb (final_varname d locals obj) obs.
+Definition fmismatches (cases : list fcase) : list nat := false_indices 0 (map fcase_ok cases).
+Definition fcount_nontrivial (cases : list fcase) : nat :=
+  count_true (map (fun c : fcase => let '(d, _, _, obs) := c in
+     match d, obs with DSome _, _ => false | _, Some _ => true | _, None => false end) cases).
